@@ -25,6 +25,15 @@ pub struct Term {
     pub konst: Option<(u64, u64)>,
     pub num: Vec<(String, i8)>,
     pub den: Vec<(String, i8)>,
+    /// the whole term in parentheses raised to this power: `(k a b / c)^n`
+    #[serde(default)]
+    pub wrap_pow: Option<u8>,
+    /// write a power of one explicitly (`m^1`)
+    #[serde(default)]
+    pub explicit_one: bool,
+    /// a sum of two multiples of the same single unit: `k1 u + k2 u` (only with one numerator unit)
+    #[serde(default)]
+    pub plus: Option<(u64, bool)>,
 }
 
 impl Term {
@@ -33,12 +42,31 @@ impl Term {
             konst: None,
             num: vec![(name.to_string(), 1)],
             den: vec![],
+            wrap_pow: None,
+            explicit_one: false,
+            plus: None,
         }
     }
     pub fn render(&self) -> String {
+        let inner = self.render_inner();
+        let inner = match self.plus {
+            Some((k2, minus)) if self.num.len() == 1 && self.den.is_empty() => {
+                let (u, p) = &self.num[0];
+                let uu = if *p == 1 { u.clone() } else { format!("{}^{}", u, p) };
+                format!("{} {} {} {}", inner, if minus { "-" } else { "+" }, k2, uu)
+            }
+            _ => inner,
+        };
+        match self.wrap_pow {
+            Some(n) => format!("({})^{}", inner, n),
+            None => inner,
+        }
+    }
+    fn render_inner(&self) -> String {
+        let one = self.explicit_one;
         let fac = |v: &Vec<(String, i8)>| {
             v.iter()
-                .map(|(u, k)| if *k == 1 { u.clone() } else { format!("{}^{}", u, k) })
+                .map(|(u, k)| if *k == 1 && !one { u.clone() } else { format!("{}^{}", u, k) })
                 .collect::<Vec<_>>()
                 .join(" ")
         };
@@ -157,6 +185,28 @@ fn term_value(ctx: &Context, t: &Term) -> TermVal {
             v = v.mul(&q.powi(e).unwrap());
             dims = dims_mul(&dims, &dims_pow(&rinkx::dims_of(&n), e), 1);
         }
+    }
+    if let Some((k2, minus)) = t.plus {
+        if t.num.len() == 1 && t.den.is_empty() {
+            // (k1 + k2) u  or (k1 - k2) u
+            let k1 = match t.konst {
+                Some((n, d)) => Q::new(n.into(), d.into()),
+                None => Q::small(1),
+            };
+            let unit_part = v.div(&k1).unwrap();
+            let k = if minus { k1.sub(&Q::new(k2.into(), 1.into())) } else { k1.add(&Q::new(k2.into(), 1.into())) };
+            if k.is_zero() {
+                return TermVal::Unusable("sum target cancels to zero");
+            }
+            v = unit_part.mul(&k);
+        }
+    }
+    if let Some(n) = t.wrap_pow {
+        v = match v.powi(n as i64) {
+            Ok(x) => x,
+            Err(_) => return TermVal::Unusable("power too large"),
+        };
+        dims = dims_pow(&dims, n as i64);
     }
     TermVal::Ok(v, dims)
 }
@@ -384,7 +434,7 @@ pub fn check(env: &Env, case: &Case, st: &mut Stats) -> CaseResult {
 // generators
 // ---------------------------------------------------------------------------
 
-const COEFS: [(u64, u64); 8] = [(1, 1), (3, 1), (5, 2), (1, 7), (1000000007, 1), (1, 1000000000), (22, 7), (100, 1)];
+const COEFS: [(u64, u64); 9] = [(1, 1), (3, 1), (5, 2), (1, 7), (1000000007, 1), (1, 1000000000), (22, 7), (100, 1), (0, 1)];
 
 fn coef() -> impl Strategy<Value = (u64, u64)> {
     prop_oneof![
@@ -430,17 +480,24 @@ fn compound(pool: Arc<UnitPool>, reciprocal: bool, conformable: bool) -> impl St
         proptest::option::weighted(0.35, prop_oneof![(1u64..50, 1u64..2), (1u64..20, 2u64..9)]),
         proptest::option::weighted(0.12, Just("potato".to_string())),
         any::<prop::sample::Index>(),
+        (proptest::option::weighted(0.15, 2u8..=3), proptest::bool::weighted(0.15), proptest::option::weighted(0.1, (1u64..9, any::<bool>()))),
     )
-        .prop_map(move |(c, factors, konst, inline_name, twist)| {
+        .prop_map(move |(c, factors, konst, inline_name, twist, (wrap_pow, explicit_one, plus))| {
             let mut src = Term {
                 konst: None,
                 num: vec![],
                 den: vec![],
+                wrap_pow,
+                explicit_one,
+                plus: None,
             };
             let mut tgt = Term {
                 konst,
                 num: vec![],
                 den: vec![],
+                wrap_pow,
+                explicit_one: false,
+                plus: None,
             };
             for (class, pow, in_num, ds, dt) in &factors {
                 let su = pick_in_class(&pool, *class, ds);
@@ -469,6 +526,9 @@ fn compound(pool: Arc<UnitPool>, reciprocal: bool, conformable: bool) -> impl St
             if twist.index(2) == 1 {
                 tgt.num.reverse();
                 tgt.den.reverse();
+            }
+            if tgt.num.len() == 1 && tgt.den.is_empty() && inline_name.is_none() {
+                tgt.plus = plus;
             }
             Case {
                 c,
